@@ -142,9 +142,13 @@ PROPS = {
     },
     'C15': {
         'engines': [{'name': 'c15', 'timeout_quick': 600, 'timeout_thorough': 7200}],
-        'trusted_base': ['zlib, lz4, zstd, snappy: oracles - their inverse property and output bounds are documented contracts, not modelled'],
-        'assumptions': ['PARTIAL by nature: the theorems cover mtbl\'s own wrapper logic (names, level clamping, LZ4 prefix); "never aborts / round-trips" for every buffer additionally needs the library contracts and is exercised, in forked children, on every length 0..64 x four contents x 5 algorithms and all level classes, and on random structured buffers'],
-        'explanation': 'T15b: names round-trip, from_str = case-insensitive table membership, unknown names refused (tables regenerated from compression.c); T15a_levels_partial: the level passed to zlib/lz4hc/zstd is in range for every requested level; LZ4 length prefix round trip. Engine c15: forked round trips, outcome must be OK or a reported compress failure, never an abort or a mismatch.',
+        'trusted_base': ['zlib, lz4, zstd, snappy: oracles (record `libs` of model/Compress.v). Hypotheses of the theorems, each a documented contract: libs_sound (what a compressor returns fits the capacity it was given and is inverted by the matching decompressor offered exactly the original size; zstd / snappy report that size; inflate(Z_FINISH) ends the stream once the space offered holds the output, Z_BUF_ERROR before) and libs_complete (offered its bound function\'s value as capacity and a legal level a compressor does not fail; deflateInit accepts levels -1..9)',
+                         'bound formulas of LZ4_compressBound, ZSTD_compressBound, snappy_max_compressed_length are written out in the model and compared with the library functions by engine c15 (0..600, powers of two +-, random sizes)',
+                         'compression.c is compiled with the library entry points renamed (-DLZ4_compress_default=vp_LZ4_compress_default ...) to recording shims in ocaml/stubs.c'],
+        'assumptions': ['T15a_roundtrip: input < 2^64 bytes; for zstd, ZSTD_compressBound(input length) <= INT_MAX (observation O6: above that an incompressible input compresses to more than INT_MAX bytes, which mtbl_decompress refuses; about 2 GiB, outside the stated range)',
+                        'T15a_compress_succeeds: input <= LZ4_MAX_INPUT_SIZE (0x7E000000) so that every library accepts it',
+                        'what no theorem here can show: that zlib/lz4/zstd/snappy meet their contracts - exercised in forked children on every length 0..64 x four contents x 5 algorithms and all level classes, random structured buffers, 8 threads at once'],
+        'explanation': 'T15a_roundtrip (success of mtbl_compress[_level] implies mtbl_decompress returns the input: INT_MAX gates, LZ4 length prefix, zstd content-size path, zlib grow loop), T15a_compress_succeeds / T15a_never_aborts (capacity >= bound and legal level for EVERY requested level, so no failure and no assert), T15a_capacities, T15a_levels, T15b_names (tables regenerated from compression.c). Engine c15: forked round trips; at the library boundary the recorded (level, capacity, source length) must satisfy the hypotheses of the theorems (capacity >= the real bound function, deflateInit level in -1..9, zstd level in [min,max], decompressor offered the original size); sizes above INT_MAX must be refused without touching the buffer.',
     },
     'C17': {
         'engines': [{'name': 'c17', 'timeout_quick': 600, 'timeout_thorough': 7200}],
